@@ -420,6 +420,8 @@ var corpus = []struct {
 	{1, "inv-bitflip-sig"},                            // header known ahead, corrupted block witness (d99d969)
 	{1, "witness-empty"},                              //
 	{1, "tx-witness-bitflip-first"},                   // tx pooled, block copy with corrupted witness (ec0103c)
+	{1, "copy:hdr-ver-replaced"},                      // header known ahead, copy with another verification script (seeded C06-m7)
+	{1, "copy:tx-ver-replaced"},                       // tx pooled, copy with another verification script (seeded C06-m7)
 	{0, "inblock-conflict-after-higher-fee+resigned"}, // [t1,t2], t2.Conflicts={t1} (d0c3ec8)
 	{0, "inblock-conflict-before-lower-fee+resigned"},
 	{6, "dup-last"},                 // [a,b,c,c] with the hash of [a,b,c], VerifyTransactions off (ab64b57)
@@ -631,6 +633,9 @@ func runCase(o *hx.Out, k int, st *state, cd *cand, r *prng.R) {
 	}
 
 	o.Count("group:" + cd.group)
+	if strings.HasPrefix(cd.name, "copy:") {
+		o.Count("class:copy-differs")
+	}
 	o.Count("signed:" + cd.signed)
 	o.Seen(fmt.Sprintf("%s|%s", spec, cd.name))
 	if k%slots < 2 && k/slots < 2 {
